@@ -11,7 +11,7 @@ from harness import common
 from harness.translate import gen as G
 
 PROPERTY = "C08"
-LEAN_MODULES = ["SigpyVerif.Props.C08"]
+LEAN_MODULES = ["SigpyVerif.Props.C08", "SigpyVerif.Props.C08Flat"]
 THEOREMS = ["SigpyVerif.C08." + t for t in [
     "conv_out_len_full", "conv_out_len_valid", "conv_out_len", "conv_out_len_valid_any",
     "admit_iff", "admit_cases",
@@ -26,6 +26,18 @@ THEOREMS = ["SigpyVerif.C08." + t for t in [
     "conv_out_len_any", "mkAxes_ok_admitted", "data_adjoint_nd_mc", "filter_adjoint_nd_mc", "mkAxes_p", "adjoint_nd_mc_code",
     "mkAxes_shapes", "split_mc", "split_sc",
     "dtype_rule", "complex_output_exact", "linop_adjoint_args_agree", "linop_double_adjoint",
+    # Props/C08Flat.lean — the flat-array executable model (what the driver runs) = the index-level definitions;
+    # generated guard table / strides block / reshape plumbing; every argument combination: computed shape or error;
+    # the Linop classes interpreted from their generated descriptions, adjoint pairing through the generated wiring
+    "guard_table", "strides_spec", "stridesOf_length", "getParams_eq", "splitShapes_inv", "getParams_inv",
+    "npReshape_self", "npReshape_nonneg_some", "bcast_self", "bIdx_self", "mkAxes_true_fields", "mkAxes_fields",
+    "sliceLen_counts", "sliceLen_eq_codeLen", "zipWith_sliceLen_eq", "adjL_eq", "adjOutcome_exact", "div_mem_allIdx",
+    "sumList_allIdx", "loopSumL_eq", "convNDAt_eq_convD", "corrNDAt_eq_corrD", "corrD_congr", "stuffD_eq",
+    "inBounds_iff_mem_allIdx", "readZ_map_allIdx",
+    "convolve_eq_index", "data_adjoint_eq_index", "filter_adjoint_eq_index",
+    "convolve_shape_or_raise", "adjoint_shape_or_raise", "convolve_raises_iff", "adjoint_raises_iff",
+    "flat_data_adjoint_identity", "flat_filter_adjoint_identity",
+    "linop_H_wiring", "linop_apply_wiring", "linop_data_pairing", "linop_filter_pairing",
 ]]
 
 
@@ -400,16 +412,30 @@ def is_cast_error(e):
 
 
 def err(e):
+    if isinstance(e, RuntimeError) and e.__cause__ is not None and not is_cast_error(e):
+        e = e.__cause__      # Linop.apply wraps every exception of _apply / the shape checks
     if is_cast_error(e):
         return "err TypeError"
     return "err ValueError" if isinstance(e, ValueError) else "err %s" % type(e).__name__
 
 
-def linop_view(model):
-    """Linop contract (hand-written): a non-positive entry in the advertised shape is a ValueError at construction"""
-    if isinstance(model, tuple) and any(v <= 0 for v in model[0]):
-        return "err ValueError"
-    return model
+# (op, via) -> (class, number of .H, which shape is the constructor's shape argument, frozen array, input array):
+# the request to the Lean interpretation of the generated Linop descriptions (Gen.ConvLinops; Model: linopApply)
+LINOP_VIA = {
+    ("conv", "linop"): ("data", 0, 0, "f", "d"), ("conv", "linop-filter"): ("filter", 0, 1, "d", "f"),
+    ("conv", "adjH-data"): ("dataAdjoint", 1, 0, "f", "d"), ("conv", "adjH-filter"): ("filterAdjoint", 1, 1, "d", "f"),
+    ("dadj", "linop"): ("data", 1, 0, "f", "y"), ("dadj", "linop-direct"): ("dataAdjoint", 0, 0, "f", "y"),
+    ("fadj", "linop"): ("filter", 1, 1, "d", "y"), ("fadj", "linop-direct"): ("filterAdjoint", 0, 1, "d", "y"),
+}
+
+
+def line_linop(c, x, op, via):
+    cls, h, which, arr, inp = LINOP_VIA[(op, via)]
+    shp = shapes(c)
+    dt = dict(zip(NAMES, dtypes_of(c)))
+    return "C08 linop cls=%s H=%d sh=%s ash=%s mode=%s st=%s mc=%d ca=%d ci=%d ish=%s arr=%s x=%s" % (
+        cls, h, L(shp[which]), L(x[arr].shape), c["mode"], "none" if c["s"] is None else L(c["s"]), 1 if c["mc"] else 0,
+        1 if dt[arr] else 0, 1 if dt[inp] else 0, L(x[inp].shape), A(x[arr]), A(x[inp]))
 
 
 def kw(c):
@@ -590,61 +616,135 @@ def _run(ctx, cases, stream, rng, vias=None):
     for c in cases:
         x = make_inputs(c, rng)
         for op, ln in lines_for(c, x).items():
-            lines.append(ln)
-            meta.append((c, x, op, "nd"))
-        if c.get("mix"):   # whether the Linops can be constructed is a matter of shapes only: dtype-neutral forward call
-            lines.append(lines_for(dict(c, mix=None), x)["conv"])
-            meta.append((c, x, "probe", "nd"))
-        for op, ln in lines_1d(c, x).items():
-            lines.append(ln)
-            meta.append((c, x, op, "1d"))
-        for op, ln in lines_mc1(c, x).items():
-            lines.append(ln)
-            meta.append((c, x, op, "mc1"))
-        for op, ln in lines_2d(c, x).items():
-            lines.append(ln)
-            meta.append((c, x, op, "2d"))
-        for op, ln in lines_nd(c, x).items():
-            lines.append(ln)
-            meta.append((c, x, op.split("#")[0], "nD"))
-        for op, ln in lines_mcD(c, x).items():
-            lines.append(ln)
-            meta.append((c, x, op, "mcD"))
+            for via in (vias or VIAS)[op]:
+                # the functions: the flat-array model of conv.py; the Linops: the generated class descriptions
+                # (constructor, .H, _apply) interpreted in Lean on top of the same model
+                lines.append(ln if via == "fn" else line_linop(c, x, op, via))
+                meta.append((c, x, op, "nd", via))
+        for layer, fn in (("1d", lines_1d), ("mc1", lines_mc1), ("2d", lines_2d), ("nD", lines_nd), ("mcD", lines_mcD)):
+            for op, ln in fn(c, x).items():
+                lines.append(ln)
+                meta.append((c, x, op.split("#")[0], layer, "fn"))
     replies = ctx.driver(lines)
     bad = 0
-    fwd = {}   # id(case) -> model reply of the forward call (decides whether the Linops can be constructed)
-    for (c, x, op, layer), r in zip(meta, replies):
-        if (op == "probe" or (op == "conv" and not c.get("mix"))) and layer == "nd":
-            fwd[id(c)] = parse_reply(r)
-    for (c, x, op, layer), ln, r in zip(meta, lines, replies):
-        if op == "probe":
-            continue
+    for (c, x, op, layer, via), ln, r in zip(meta, lines, replies):
         model = parse_reply(r)
         dom = domain(c)
-        for via in (vias or VIAS)[op] if layer == "nd" else ["fn"]:
-            try:
-                got = run_impl(c, x, op, via)
-                impl = canon(np.reshape(got, norm_shape(c, op)) if layer in ("mc1", "mcD") else got)
-            except Exception as e:  # noqa
-                impl = err(e)
-                if c.get("mix") and is_cast_error(e):
-                    ctx.count("mixed-dtype-rejected:%s:%s" % (op, "".join("c" if v else "r" for v in dtypes_of(c))))
-                    if layer != "nd":
-                        continue   # the index-level layers carry no dtypes: nothing to compare
-            want = model
-            if via != "fn":
-                # Linop contract (hand-written): the constructor calls _get_convolve_params and rejects a
-                # non-positive entry in the advertised output shape (ValueError); otherwise it forwards to the function
-                want = model if linop_view(fwd[id(c)]) == fwd[id(c)] and isinstance(fwd[id(c)], tuple) else "err ValueError"
-            ex = extras(c)
-            ctx.case((ln, via, ex), nontrivial=True,
-                     sample=dict(line=ln[:160], via=via, reply=r[:100], **dict(ex)) if ctx.evaluations % 397 == 0 else None)
-            ctx.count("%s:%s:D%d:%s:%s" % (op, c["mode"], len(c["m"]), dom, "mc" if c["mc"] else "sc"))
-            if ex and layer == "nd":
-                count_extras(ctx, c, op)
-            if impl != want:
-                bad += 1
-                ctx.disagree(stream, dict(ser(c, x), op=op, via=via, layer=layer), impl, want)
+        try:
+            got = run_impl(c, x, op, via)
+            impl = canon(np.reshape(got, norm_shape(c, op)) if layer in ("mc1", "mcD") else got)
+        except Exception as e:  # noqa
+            impl = err(e)
+            if c.get("mix") and is_cast_error(e):
+                ctx.count("mixed-dtype-rejected:%s:%s" % (op, "".join("c" if v else "r" for v in dtypes_of(c))))
+                if layer != "nd":
+                    continue   # the index-level layers carry no dtypes: nothing to compare
+        ex = extras(c)
+        ctx.case((ln, via, ex), nontrivial=True,
+                 sample=dict(line=ln[:160], via=via, reply=r[:100], **dict(ex)) if ctx.evaluations % 397 == 0 else None)
+        ctx.count("%s:%s:D%d:%s:%s" % (op, c["mode"], len(c["m"]), dom, "mc" if c["mc"] else "sc"))
+        if ex and layer == "nd":
+            count_extras(ctx, c, op)
+        if impl != model:
+            bad += 1
+            ctx.disagree(stream, dict(ser(c, x), op=op, via=via, layer=layer), impl, model)
+    return bad
+
+
+# ---- error behaviour: argument combinations outside the admitted ones ------------------------------------
+def error_cases(rng, n):
+    """raw calls (data shape, filter shape, mode string, strides, multi_channel, shape of the output-side array):
+    rank mismatch, channel mismatch, strides of the wrong length, mixed valid sizes, unknown mode, an output-side
+    array of the wrong shape / size for the adjoints — plus the same generator's admitted calls as controls"""
+    out = []
+    for _ in range(n):
+        c = rand_case(rng, rng.choice([1, 1, 2]), 4)
+        c.pop("mix", None)
+        c["cplx"] = True
+        dsh, fsh = shapes(c)
+        ysh = ysh_of(c) if domain(c) != "mixed" else list(c["b"]) + ([c["co"]] if c["mc"] else []) + [1] * len(c["m"])
+        mode, st, mc = c["mode"], (None if c["s"] is None else list(c["s"])), c["mc"]
+        D = len(c["m"])
+        kind = rng.choice(["ok", "rank-data", "rank-filt", "channel", "strides-len", "mode", "ysh-p", "ysh-size", "ysh-batch",
+                           "mixed"])
+        if kind == "rank-data":       # data with fewer axes than the filter needs
+            keep = rng.randint(0, D + (1 if mc else 0) - 1)
+            dsh = dsh[len(dsh) - keep:] if keep else []
+        elif kind == "rank-filt":     # a filter with one more spatial axis than the data has axes to give
+            fsh = fsh + [rng.randint(1, 2)] * (len(dsh) - D - (1 if mc else 0) + 1)
+        elif kind == "channel":
+            if not mc:
+                mc, dsh, fsh = True, list(c["b"]) + [2] + list(c["m"]), [2, 3] + list(c["n"])
+            else:
+                fsh = [fsh[0], fsh[1] + 1] + fsh[2:]
+        elif kind == "strides-len":
+            st = [1] * (D + rng.choice([-1, 1]))
+        elif kind == "mode":
+            mode = "other"
+        elif kind == "ysh-p":         # one spatial extent of the output-side array off by one
+            i = len(ysh) - 1 - rng.randrange(D)
+            ysh = ysh[:i] + [ysh[i] + 1] + ysh[i + 1:]
+        elif kind == "ysh-size":      # same number of axes, another element count
+            ysh = ysh[:-1] + [ysh[-1] + 2]
+        elif kind == "ysh-batch":     # flattened / re-split batch axes: same element count (reshape accepts it)
+            ysh = [int(np.prod(ysh))] if rng.random() < 0.5 else [1] + ysh
+        elif kind == "mixed":
+            if D < 2:
+                kind = "ok"
+            else:
+                c2 = rand_case(rng, 2, 4, dom="mixed")
+                c2.pop("mix", None)
+                c2["mode"] = "valid"
+                dsh, fsh = shapes(c2)
+                mode, st, mc = "valid", (None if c2["s"] is None else list(c2["s"])), c2["mc"]
+                ysh = list(c2["b"]) + ([c2["co"]] if mc else []) + [1, 1]
+        out.append(dict(kind=kind, dsh=[int(v) for v in dsh], fsh=[int(v) for v in fsh], mode=mode, st=st, mc=bool(mc),
+                        ysh=[int(v) for v in ysh]))
+    return out
+
+
+def raw_call(e, x, op):
+    import sigpy as sp
+    k = dict(mode={"other": "same"}.get(e["mode"], e["mode"]), strides=None if e["st"] is None else tuple(e["st"]),
+             multi_channel=e["mc"])
+    if op == "conv":
+        return sp.convolve(x["d"], x["f"], **k)
+    if op == "dadj":
+        return sp.convolve_data_adjoint(x["y"], x["f"], tuple(e["dsh"]), **k)
+    return sp.convolve_filter_adjoint(x["y"], x["d"], tuple(e["fsh"]), **k)
+
+
+def raw_lines(e, x):
+    h = "dsh=%s fsh=%s mode=%s st=%s mc=%d dt=111" % (L(e["dsh"]), L(e["fsh"]), e["mode"], "none" if e["st"] is None else L(e["st"]),
+                                                     1 if e["mc"] else 0)
+    return {"conv": "C08 conv %s d=%s f=%s" % (h, A(x["d"]), A(x["f"])),
+            "dadj": "C08 dadj %s ysh=%s y=%s f=%s" % (h, L(e["ysh"]), A(x["y"]), A(x["f"])),
+            "fadj": "C08 fadj %s ysh=%s y=%s d=%s" % (h, L(e["ysh"]), A(x["y"]), A(x["d"]))}
+
+
+UNMODELLED = ("err bad-rank", "err IndexError", "err domain")   # the model only says: raises
+
+
+def run_errors(ctx, rng, n):
+    es, lines, meta = error_cases(rng, n), [], []
+    for e in es:
+        x = dict(d=rand_arr(rng, e["dsh"], True), f=rand_arr(rng, e["fsh"], True), y=rand_arr(rng, e["ysh"], True))
+        for op, ln in raw_lines(e, x).items():
+            lines.append(ln)
+            meta.append((e, x, op))
+    bad = 0
+    for (e, x, op), ln, r in zip(meta, lines, ctx.driver(lines)):
+        model = parse_reply(r)
+        try:
+            impl = canon(raw_call(e, x, op))
+        except Exception as ex:  # noqa
+            impl = err(ex)
+        ctx.case((ln,), nontrivial=True, sample=dict(line=ln[:160], reply=r[:100]) if ctx.evaluations % 397 == 0 else None)
+        ctx.count("args:%s:%s:%s" % (op, e["kind"], "raises" if isinstance(impl, str) else "returns"))
+        agree = impl == model or (isinstance(impl, str) and isinstance(model, str) and model in UNMODELLED)
+        if not agree:
+            bad += 1
+            ctx.disagree("errors", dict(raw=e, op=op, d=A(x["d"]), f=A(x["f"]), y=A(x["y"])), impl, model)
     return bad
 
 
@@ -661,16 +761,29 @@ def correspond(ctx):
                 "inside one array), in single precision, in Fortran-ordered / transposed / strided / negative-stride / "
                 "axes-permuted memory layouts (each array independently), with batch shapes of >= 2 non-trivial axes, and "
                 "through a callable that was applied to another input before; results are divided by the power of two "
-                "(exact) and compared exactly with the same model reply")
+                "(exact) and compared exactly with the same model reply. Stream 'errors': raw calls of the three functions "
+                "with a rank mismatch, a channel mismatch, strides of the wrong length, an unknown mode string, mixed valid "
+                "sizes, an output-side array of a wrong extent / element count / re-split batch axes (and admitted controls): "
+                "exception class or exact value")
     ctx.assumptions += [
         "scipy.signal.convolve/correlate enter the model by their index contracts (convOff, corrShift, scipyLen), numpy "
-        "slicing/broadcast/reshape by sliceLen/bcast/npReshape: hand-written, validated by the correspondence only",
+        "slicing/broadcast/reshape/np.zeros by sliceLen/bcast/npReshape and Linop.__init__/apply by their shape checks: "
+        "hand-written, validated by the correspondence only",
         "translator-generated: the length formulas, the admission test, the adjoints' correlate-mode branches (Gen.ConvFormulas); "
-        "the (batch, c_o, c_i) loop wiring, zero-stuffing statement, `+=`, `[slc]`, allocation dtypes of the three functions "
-        "(Gen.ConvWiring); the argument passing of the four Linop classes (Gen.ConvLinops); how _get_convolve_params splits the "
-        "shapes into b, m, n, c_i, c_o (Gen.ConvParams)",
+        "the (batch, c_o, c_i) loop wiring, zero-stuffing statement, `+=`, `[slc]`, allocation dtypes, every reshape target "
+        "(normalisation before the loops, final reshape per multi_channel branch) and the shape arguments of the "
+        "_get_convolve_params call of the three functions (Gen.ConvWiring); constructor / _apply / _adjoint_linop of the four "
+        "Linop classes (Gen.ConvLinops, interpreted by the model: linopShapes / linopAdjoint / linopApply); how "
+        "_get_convolve_params splits the shapes, its strides default and length check, and its guard table - every `raise` in "
+        "source order with its exception class (Gen.ConvParams)",
+        "proved (Props/C08Flat.lean): the flat-array functions the driver runs equal the index-level definitions of the adjoint "
+        "theorems on every admitted call; for every argument combination they return exactly the computed shape or an error; "
+        "the Linop wiring pairs each class with its adjoint function",
         "numpy's casting rules (silent complex->real cast on item assignment, TypeError on in-place add of a complex term into a "
         "real array) are a hand-written contract (convDtypeRule / adjDtypeRule), validated by the mixed-dtype correspondence cases",
+        "the model's domain is positive extents and strides (zero-size arrays / non-positive strides answer `err domain` and are "
+        "never requested); argument combinations the model only classifies as `raises` (rank mismatch) are compared by "
+        "raises / returns, all others by exception class and value",
         "widened stream: mantissa * 2^e is exact in binary floating point and the maps are bilinear, so the result of the real "
         "code divided by 2^(e_a + e_b) is compared exactly with the model reply for the integer mantissas (no underflow: "
         "|e_a + e_b| <= 200 in double, >= -120 in single precision; integers stay < 2^53); memory layout, precision and "
@@ -707,6 +820,8 @@ def correspond(ctx):
     wid = widened_cases(rng, 250 if quick else 1500, 150 if quick else 1200, 30 if quick else 300)
     bad = _run(ctx, wid, "widened", rng)
     ctx.oblige("correspondence:C08.widened", "correspondence", bad == 0, "%d disagreements" % bad)
+    bad = run_errors(ctx, rng, 400 if quick else 4000)
+    ctx.oblige("correspondence:C08.errors", "correspondence", bad == 0, "%d disagreements" % bad)
     ctx.traces = ctx.evaluations
 
 
@@ -861,12 +976,63 @@ def check_case(ctx, c, x, origin, ops=None):
     return ok
 
 
+MUST_RAISE = {"rank-data": "data with too few axes for the filter", "rank-filt": "filter with more spatial axes than the data",
+              "channel": "different channel counts in data and filter", "strides-len": "strides of the wrong length",
+              "mode": "unknown mode string", "mixed": "valid mode, data longer on one axis and shorter on another",
+              "ysh-p": "output-side array with a wrong spatial extent", "ysh-size": "output-side array with a wrong element count"}
+
+
+def check_raw(ctx, e, x, op, origin):
+    """the property on a raw call: a combination that is not admitted must be rejected (an exception), never answered
+    with an array; an admitted one must give the requested / computed shape"""
+    if op == "conv" and e["kind"].startswith("ysh"):
+        return True
+    try:
+        got = raw_call(e, x, op)
+    except Exception:  # noqa
+        return True
+    shape = list(np.shape(got))
+    case = dict(raw=e, op=op, d=A(x["d"]), f=A(x["f"]), y=A(x["y"]))
+    if e["kind"] in MUST_RAISE:
+        ctx.fail("C08:args:%s:%s" % (e["kind"], op), "%s returned an array of shape %s for a call that must be rejected (%s)" % (
+            op, shape, MUST_RAISE[e["kind"]]), case, observed=shape, expected="an exception", origin=origin)
+        return False
+    want = {"dadj": e["dsh"], "fadj": e["fsh"]}.get(op)
+    if want is not None and shape != want:
+        ctx.fail("C08:args:%s:%s" % (e["kind"], op), "%s returned shape %s, requested %s" % (op, shape, want), case,
+                 observed=shape, expected=want, origin=origin)
+        return False
+    return True
+
+
+def deser_raw(cc):
+    e = cc["raw"]
+
+    def arr(t, sh):
+        vals = []
+        if t != "-":
+            for u in t.split(","):
+                q = u.split(";")
+                vals.append(complex(int(q[0]), int(q[1]) if len(q) > 1 else 0))
+        return np.array(vals, dtype=np.complex128).reshape(sh)
+    return e, dict(d=arr(cc["d"], e["dsh"]), f=arr(cc["f"], e["fsh"]), y=arr(cc["y"], e["ysh"]))
+
+
 def search(ctx, budget):
     rng = ctx.rng
     for dgr in ctx.disagreements[:100]:
         cc = dgr["case"]
+        if "raw" in cc:
+            e, x = deser_raw(cc)
+            check_raw(ctx, e, x, cc["op"], "disagreement")
+            continue
         c, x = deser(cc)
         check_one(ctx, c, x, cc["op"], cc["via"], "disagreement")
+    for e in error_cases(rng, int(150 * budget)):
+        x = dict(d=rand_arr(rng, e["dsh"], True), f=rand_arr(rng, e["fsh"], True), y=rand_arr(rng, e["ysh"], True))
+        for op in ("conv", "dadj", "fadj"):
+            ctx.case(("oracle-args", json.dumps(e, sort_keys=True), op))
+            check_raw(ctx, e, x, op, "search-args")
     # directed: every 1-D (m, n, s, mode) once with a random channel/batch configuration
     ex1 = list(exhaustive_1d())
     grid = {}
@@ -891,8 +1057,16 @@ def replay(path):
     if r.get("kind") != "failing-input":
         return 0
     cc = r["case"]
-    c, x = deser(cc)
     ctx = common.Ctx(PROPERTY, "quick", 0)
+    if "raw" in cc:
+        e, x = deser_raw(cc)
+        ok = check_raw(ctx, e, x, cc["op"], "replay")
+        print("model:", ctx.driver([raw_lines(e, x)[cc["op"]]])[0][:300])
+        for f in ctx.failures:
+            print("oracle:", f["what"])
+        print("replay:", "property holds on this input" if ok else "property FAILS on this input")
+        return 0 if ok else 1
+    c, x = deser(cc)
     ok = check_one(ctx, c, x, cc["op"], cc["via"], "replay")
     ln = lines_for(c, x)[cc["op"]]
     print("model:", ctx.driver([ln])[0][:300])
